@@ -329,12 +329,22 @@ impl Prop for C01 {
                     10 => 200,
                     _ => 100,
                 };
+                // the dense grid is the most expensive family (cubic): its largest pair is 64x32 / 128x64
+                if fam == 0 && k > 3 {
+                    cx.tally("growth: dense grid above 128x64 not run (minutes per call)");
+                    cx.outcome(&("growth", fam, k));
+                    return;
+                }
                 let n = base << k;
                 let a = growth_input(fam, n);
                 let b = growth_input(fam, 2 * n);
                 let mut ta = f64::INFINITY;
                 let mut tb = f64::INFINITY;
-                for _ in 0..3 {
+                for rep in 0..3 {
+                    if rep > 0 && tb > 5.0 {
+                        break;
+                    }
+                    crate::runner::arm_watchdog_pub(b.len());
                     match (timed(&a), timed(&b)) {
                         (Ok(x), Ok(y)) => {
                             ta = ta.min(x);
